@@ -213,8 +213,14 @@ def g_co2_wiring(tier, seed):
     out = []
     mk = lambda env: {'env': env}
 
-    def grp(*a):
-        return SymReal(GRP(*[toz(x) for x in a]))
+    import inspect
+    sig = inspect.signature(sv.group_refractivity)
+
+    def grp(*a, **k):
+        # summary with the real function's signature (defaults included): the call is recorded as its full argument list
+        b = sig.bind(*a, **k)
+        b.apply_defaults()
+        return SymReal(GRP(*[toz(x) for x in b.arguments.values()]))
 
     def h2p(h, t):
         return SymReal(H2P(toz(h), toz(t)))
@@ -225,7 +231,13 @@ def g_co2_wiring(tier, seed):
     with swap_globals(sv, group_refractivity=grp, humidity2part_water_vapour_press=h2p):
         paths, st = explore(run, max_paths=40)
     for p in paths:
+        if p.kind == 'cut':
+            out.append(ob.res('O3', 'CO2 wiring', 'inconclusive', [], 'path cut: %s' % p.value))
+            continue
         if p.kind != 'return':
+            out.append(ob.decide_goal('O3', 'CO2-aware correction: no exception (%s: %s)' % (type(p.value).__name__, p.value), ob.path_conds(p),
+                                      z3.BoolVal(False), pid=PID, oracle='oracles.c19:atmosphere', args_from_model=mk, key='O3:co2-form',
+                                      domain=DOM, num_conds=p.assumptions + p.pc, timeout_s=QT[tier]))
             continue
         v, r = p.value
         ng = 1 + grp(v['wl'], v['t'], v['p'], h2p(v['h'], v['t']), v['xc']) / 100000000
